@@ -865,7 +865,10 @@ pub fn run(tier: Tier) -> i32 {
     rep.assumptions.push("reference = VecDeque-style queue model (plus known contents of the unallocated area); trusted".into());
     rep.assumptions.push("abstraction: code is generic in T and never inspects elements, so (capacity, read position, length[, metadata shapes]) determines control flow; contents carry fresh labels and the full physical storage is compared after every transition".into());
     rep.assumptions.push("documented panics (callback returning more than offered, enqueue_unallocated/dequeue_allocated beyond bounds) are not exercised".into());
-    let lim = Limits::default();
+    // On the unchanged tree every configuration reaches its fixpoint far below these caps; they
+    // exist for trees on which implementation and model diverge, where the abstract state space
+    // need not be finite any more (what was found up to the cap is reported, exhaustive=false).
+    let lim = if tier == Tier::Quick { Limits { max_states: 2_000_000, max_wall_s: 60.0 } } else { Limits { max_states: 20_000_000, max_wall_s: 900.0 } };
     let maxcap = if tier == Tier::Quick { 8 } else { 24 };
     for cap in 0..=maxcap {
         let cfg = RingCfg { cap };
